@@ -103,6 +103,8 @@ func TestRegressValidate(t *testing.T) {
 		{"", false, false}, {"my_repo", false, false}, {"a b", false, false}, {"a/b", false, false}, {"a.b", false, false}, {"a%", false, false},
 		{"x²", false, false}, {"é", false, false}, {"a\n", false, false}, {"🙂", false, false}, {"\xff", false, false},
 		{"label1", true, true}, {"label1-", true, true}, {"label1_1-1", true, true}, {"a‿b", true, true},
+		// mathematical minus signs are symbols (Sm): neither letters, digits, hyphens nor dash punctuation
+		{"a\u2212b", false, false}, {"a\u207bb", false, false}, {"a\u208bb", true, false}, {"2019\u22122020", true, false},
 		{"", true, false}, {"label1/asd", true, false}, {"label{", true, false}, {"label with spaces is not supported", true, false}, {"a.b", true, false},
 	} {
 		c := valCase{Name: x.name, Label: x.label, classes: classify(x.name)}
